@@ -149,7 +149,7 @@ def tiny(year, kind):
 
 
 def compare(ctx, scope, dump, exp, nt):
-    zones = {z["name"]: z for z in dump["zones"]["x" if scope == "extended" else "b"]}
+    zones = {z["name"]: z for z in dump["zones"]["x" if scope.startswith("extended") else "b"]}
     for (kind, zname, idx), want in exp.items():
         ctx.evaluations += 1
         z = zones.get(zname)
@@ -236,6 +236,27 @@ def strip_unsupported_lists(lines):
     return out
 
 
+_NOPROGMEM = []
+
+
+def noprogmem_repo():
+    """a copy of src/ with ACE_TIME_USE_PROGMEM set to 0 in common/compat.h"""
+    if _NOPROGMEM:
+        return _NOPROGMEM[0]
+    import shutil
+    alt = os.path.join(vt.build_dir("C12"), "altrepo")
+    if os.path.exists(alt):
+        shutil.rmtree(alt)
+    shutil.copytree(os.path.join(vt.REPO, "src"), os.path.join(alt, "src"))
+    cp = os.path.join(alt, "src", "ace_time", "common", "compat.h")
+    txt = open(cp).read()
+    if "#define ACE_TIME_USE_PROGMEM 1" not in txt:
+        raise vt.HarnessError("compat.h no longer defines ACE_TIME_USE_PROGMEM 1")
+    open(cp, "w").write(txt.replace("#define ACE_TIME_USE_PROGMEM 1", "#define ACE_TIME_USE_PROGMEM 0"))
+    _NOPROGMEM.append(alt)
+    return alt
+
+
 def run(ctx):
     ctx.assumptions = ["(a) the generator's encoders are driven through ArduinoGenerator.generate_files on synthetic TzDb dictionaries; the "
                        "decoded side is the library's own brokers (dumpdb driver)",
@@ -292,6 +313,22 @@ def run(ctx):
                 continue
             compare(ctx, scope, dblib.parse_dump(o), exp, nt)
             ctx.count("synthetic_%s_values" % scope, len(exp))
+            # the other documented build configuration (ACE_TIME_USE_PROGMEM 0 selects the second set of broker accessors)
+            if part == 0 or ctx.tier == "thorough":
+                try:
+                    exe2 = compilelib.build_with_generated("C12", "dump_%s_%d_np" % (scope, part), "dumpdb.cpp",
+                                                           x_out=out if scope == "extended" else None, x_ns=ns,
+                                                           b_out=out if scope == "basic" else None, b_ns=ns, opt="-O0", repo=noprogmem_repo())
+                except vt.HarnessError as e:
+                    ctx.violation("noprogmem-does-not-compile:%s" % scope, {"scope": scope, "part": part, "compiler": str(e)[-1200:]},
+                                  "the library does not build with ACE_TIME_USE_PROGMEM 0 against the generated %s table" % scope)
+                    continue
+                rc, o, err = vt.run_exe(exe2, [], timeout=600)
+                if rc != 0:
+                    ctx.violation("dump-crash-noprogmem:%s" % scope, {"scope": scope}, "decoding the synthetic %s table crashed in the ACE_TIME_USE_PROGMEM=0 build: %s" % (scope, (err or "")[-500:]))
+                    continue
+                compare(ctx, scope + "-noprogmem", dblib.parse_dump(o), exp, nt)
+                ctx.count("synthetic_%s_values_noprogmem" % scope, len(exp))
     # ---------------- (b) shipped tables == generator(source lines) ----------------
     shipped = dblib.dump_shipped("C12")
     for scope, dbdir, letter in (("extended", "zonedbx", "x"), ("basic", "zonedb", "b")):
